@@ -54,6 +54,8 @@ def run_tlc(module, cfg=None, env=None, workers=16, timeout=600, simulate=None,
     cmd = ["java", "-Xmx" + heap, "-XX:+UseParallelGC", "-XX:ParallelGCThreads=4"]
     if dfs:
         cmd.append("-Dtlc2.tool.queue.IStateQueue=StateDeque")
+    if env and env.get("QA_TLA_LIBRARY"):
+        cmd.append("-DTLA-Library=" + env["QA_TLA_LIBRARY"])
     cmd += ["-cp", JAR, "tlc2.TLC", "-workers", str(workers), "-metadir", meta,
             "-noGenerateSpecTE", "-config", cfg]
     if simulate:
@@ -130,8 +132,9 @@ def parse_tuple(line):
     return out
 
 
-def sany(module):
-    p = subprocess.run(["java", "-cp", JAR, "tla2sany.SANY", module + ".tla"], cwd=SPECS,
+def sany(module, libdir=None):
+    lib = ["-DTLA-Library=" + libdir] if libdir else []
+    p = subprocess.run(["java"] + lib + ["-cp", JAR, "tla2sany.SANY", module + ".tla"], cwd=SPECS,
                        stdout=subprocess.PIPE, stderr=subprocess.STDOUT, text=True)
     bad = ("Fatal errors" in p.stdout or "*** Errors" in p.stdout or "Semantic errors" in p.stdout
            or "Could not" in p.stdout or p.returncode != 0)
